@@ -206,6 +206,15 @@ class CFG(object):
         if isinstance(e, ast.UnaryOp) and isinstance(e.op, ast.Not):
             t, f = self._cond(e.operand, preds, frames, stmt)
             return f, t
+        if isinstance(e, ast.Compare) and len(e.ops) > 1 and all(
+                isinstance(x, (ast.Name, ast.Constant, ast.Attribute)) for x in [e.left] + list(e.comparators)):
+            # a <= x <= b  ==  a <= x and x <= b  (operands are plain reads)
+            parts = []
+            left = e.left
+            for op, right in zip(e.ops, e.comparators):
+                parts.append(ast.copy_location(ast.Compare(left=left, ops=[op], comparators=[right]), e))
+                left = right
+            return self._cond(ast.copy_location(ast.BoolOp(op=ast.And(), values=parts), e), preds, frames, stmt)
         v = py_const(e, self.ctx.func.module)
         if v is None and isinstance(e, ast.Constant):
             v = bool(e.value)
